@@ -317,17 +317,17 @@ type worldGen struct {
 // identifiers of every admissible spelling, names equal to generated method names, fields
 // colliding with each other's getters, oneof members colliding with nested types
 var goNamePools = map[string][]string{
-	"M": {"Item", "item", "_Item", "Item_", "I_tem", "item2", "Item2D", "ITEM", "i", "X_y", "Foo", "Bar", "foo_bar", "Get", "M_Foo", "Foo_", "text_block", "sha256sum", "s3bucket", "v1beta", "z9a", "a0z", "Z0a_9z"},
-	"E": {"Kind", "kind", "_kind", "Kind_", "K_ind", "KIND", "Foo", "color3d", "x2y", "a9z", "z0_a"},
+	"M": {"Item", "item", "_Item", "Item_", "I_tem", "item2", "Item2D", "ITEM", "i", "X_y", "Foo", "Bar", "foo_bar", "Get", "M_Foo", "Foo_", "text_block", "sha256sum", "s3bucket", "v1beta", "z9a", "a0z", "Z0a_9z", "Sha256sum", "V2beta", "X509cert"},
+	"E": {"Kind", "kind", "_kind", "Kind_", "K_ind", "KIND", "Foo", "color3d", "x2y", "a9z", "z0_a", "Color3d", "Utf8mode"},
 	"V": {"UNKNOWN", "first", "_second", "Third_", "o_ther", "x", "V1", "v_1", "z9z", "a_0a"},
 	"f": {"proto", "foo", "get_foo", "reset", "string", "proto_message", "descriptor", "marshal", "unmarshal", "extension_map", "extension_range_array", "foo_", "_foo", "foo__bar",
 		"Foo", "fooBar", "foo1", "f_1", "get_reset", "get_get_foo", "x_y_z", "bar", "get_bar", "Reset", "reset_", "get", "get_", "item", "kind",
 		"sha256sum", "vector3d_point", "s3bucket", "ipv4_address", "x86", "a1b2c3", "utf8_2go",
-		"x0y", "x9y", "base10a", "n9", "a", "z", "a_z", "z_a", "zz_9aa", "_a0", "_9z", "az_za", "q7_z0a"},
+		"x0y", "x9y", "base10a", "n9", "a", "z", "a_z", "z_a", "zz_9aa", "_a0", "_9z", "az_za", "q7_z0a", "Crc32c", "Ipv4addr"},
 	"of": {"foo", "bar", "item", "kind", "reset", "get_foo", "foo_", "Foo", "baz", "string", "get_bar", "Item", "Kind", "textBlock", "TextBlock", "fooBar", "FooBar", "md5hash", "I", "x9z", "a0_z"},
 	"o":  {"choice", "reset", "string", "which_one", "Choice", "_c", "c_", "get_foo", "descriptor", "z9a", "a_0z"},
 	"mp": {"labels", "index", "foo_map", "Attrs", "reset"}, "x": {"tag", "ext_1", "_note"},
-	"S": {"Api", "admin_svc", "_Svc", "svc2", "s3api", "z9a_svc", "ServerInfo", "GameServerAdmin", "server_status", "ClientHub", "my_client_api"}, "Rpc": {"Get", "put_it", "_list", "List2", "get2nd", "a0z", "z_9a"},
+	"S": {"Api", "admin_svc", "_Svc", "svc2", "s3api", "z9a_svc", "ServerInfo", "GameServerAdmin", "server_status", "ClientHub", "my_client_api", "V2beta", "S3api"}, "Rpc": {"Get", "put_it", "_list", "List2", "get2nd", "a0z", "z_9a", "Get3d", "List2nd"},
 }
 
 var namePools = map[string][]string{
@@ -532,10 +532,17 @@ func genWorld(r *rand.Rand, o genOpts) wWorld {
 			if i := strings.LastIndex(fp.Name, "/"); i >= 0 {
 				dir = fp.Name[:i]
 			}
+			// a bare-name go_package makes the file's directory the import path: all bare names used in one
+			// directory must agree (protoc-gen-go rejects "inconsistent names" otherwise), so there is one
+			// spelling per directory
+			bare := "bare" + strings.ReplaceAll(dir, ".", "root")
+			if len(dir)%2 == 0 {
+				bare = "dash\u2014" + strings.ReplaceAll(dir, ".", "root")
+			}
 			pool := []string{"example.com/gen/alpha", "example.com/gen/beta;betapkg", "example.com/x/go-pkg", "example.com/x/v1.2", "example.com/x/type",
-				"example.com/x/9lives", "bare" + strings.ReplaceAll(dir, ".", "root"), "example.com/gen/alpha", "example.com/y/func;select", "example.com/y/Mixed_Case",
+				"example.com/x/9lives", bare, "example.com/gen/alpha", "example.com/y/func;select", "example.com/y/Mixed_Case",
 				"example.com/z/a.b-c;d-e.f", "only/one", "example.com/q/my--pkg", "example.com/q/v1.-beta;snake__case", "example.com/q/a.-_b", "example.com/a/types", "example.com/b/types", "example.com/a/types", "example.com/b/types",
-				"example.com/acme/billing/v2", "example.com/x/y/v3", "gen;pb", "./pb", "example.com/api/./pb", "example.com/api//pb", "example.com/api/pb", "example.com/x/mapping", "example.com/m/maps", "example.com/m/v2;mapper", "example.com/q/foo\u2013bar", "example.com/q/a\u00b7b;c\U0001F642d", "dash\u2014" + strings.ReplaceAll(dir, ".", "root")}
+				"example.com/acme/billing/v2", "example.com/x/y/v3", "gen;pb", "./pb", "example.com/api/./pb", "example.com/api//pb", "example.com/api/pb", "example.com/x/mapping", "example.com/m/maps", "example.com/m/v2;mapper", "example.com/q/foo\u2013bar", "example.com/q/a\u00b7b;c\U0001F642d", bare}
 			fp.GoPackage = pool[r.Intn(len(pool))]
 		}
 		if o.locs && (fi == 0 || r.Intn(5) > 0) { // some files carry no source info at all
@@ -721,14 +728,33 @@ func (wg *worldGen) fillMsg(m *wMsg, scope string, fi int, proto3 bool, vis map[
 		wg.msgs = append(wg.msgs, declMsg{f.TypeName, fi, true, false, proto3})
 		addField(f)
 	}
+	// the pre-proto3 way to write a map by hand: `repeated LabelsEntry labels` next to an ordinary nested
+	// message `LabelsEntry { key = 1; value = 2 }` WITHOUT the map_entry option: not a map
+	legacyMapField := func() {
+		f := wField{Name: wg.fresh("lg", fqn), Number: next(), Label: 3, Type: tMessage}
+		entry := wMsg{Head: wMsgHead{Name: camelOfField(f.Name), MapEntry: false, Enums: []wEnum{}, Oneofs: []string{}, Exts: []wField{}}, Nested: []wMsg{}}
+		entry.Head.Fields = []wField{{Name: "key", Number: 1, Label: 1, Type: 9}, {Name: "value", Number: 2, Label: 1, Type: 9}}
+		f.TypeName = fqnJoin(fqn, entry.Head.Name)
+		if wg.used[fqn+"\x00"+entry.Head.Name] {
+			return
+		}
+		wg.used[fqn+"\x00"+entry.Head.Name] = true
+		pos := wg.r.Intn(len(m.Nested) + 1)
+		m.Nested = append(m.Nested[:pos], append([]wMsg{entry}, m.Nested[pos:]...)...)
+		wg.msgs = append(wg.msgs, declMsg{f.TypeName, fi, false, false, proto3})
+		addField(f)
+	}
 	nFields := wg.r.Intn(5)
 	if o.fewFields {
 		nFields = wg.r.Intn(3)
 	}
 	for i := 0; i < nFields; i++ {
-		if wg.r.Intn(6) == 0 {
+		switch k := wg.r.Intn(18); {
+		case k < 3:
 			mapField()
-		} else {
+		case k == 3:
+			legacyMapField()
+		default:
 			plain()
 		}
 	}
